@@ -44,7 +44,7 @@ ASSUMPTIONS = [
     "output signed 16 bit",
     "the group program runs with wkc_errors != 0 (output enabled)",
 ]
-EXAMPLES = {"quick": 300, "thorough": 10000}
+EXAMPLES = {"quick": 300, "thorough": 6000}
 MIN_NONTRIVIAL = {"quick": 200, "thorough": 400}
 
 B32 = [0, 1, 2, 2**15 - 1, 2**15, 2**16 - 1, 2**16, 2**31 - 1, 2**31,
